@@ -1,5 +1,5 @@
 (* OpsTxId.v — protocol ops for C05. *)
-From MRS Require Import Model.Base Model.Codec Model.Keccak Model.TxId Model.BlockId Spec.TxIdSpec Model.OpsCodec Model.Show.
+From MRS Require Import Model.Base Model.Codec Model.Ed25519 Model.Keccak Model.TxId Model.BlockId Spec.TxIdSpec Model.OpsCodec Model.Show.
 From Coq Require Import String Ascii.
 Open Scope string_scope.
 
@@ -29,6 +29,25 @@ Definition ops_txid (op : string) (args0 : list string) : option string :=
     match p_all p_tx args with
     | Some t => Some ("OK " ++ show_hex (tx_hash keccak256 t) ++ " " ++ show_hex (prefix_hash keccak256 (tx_prefix t)))
     | None => None end
+  else if String.eqb op "trait_h2s" then
+    (* the trait default method Hashable::hash_to_scalar = int_le(self.hash()) mod l, for PublicKey / Transaction / TransactionPrefix *)
+    match args with
+    | [T; h] =>
+        match parse_hex h with
+        | Some b =>
+            if String.eqb T "pk" then
+              Some (if Ed25519.pk_valid b then "OK " ++ show_hex (scalar_bytes (h2s (keccak256 b))) else "ERR")
+            else if String.eqb T "tx" then
+              Some (match deserialize (dec_tx sz) b with
+                    | Ok t => "OK " ++ show_hex (scalar_bytes (h2s (tx_hash keccak256 t)))
+                    | Err _ => "ERR" | Panic => "PANIC" end)
+            else if String.eqb T "prefix" then
+              Some (match deserialize (dec_prefix sz) b with
+                    | Ok t => "OK " ++ show_hex (scalar_bytes (h2s (prefix_hash keccak256 t)))
+                    | Err _ => "ERR" | Panic => "PANIC" end)
+            else None
+        | None => None end
+    | _ => None end
   else if String.eqb op "blockfull" then
     (* a complete block from its bytes: Block::tx_root, serialize_hashable, id of the PARSED block *)
     match args with
